@@ -19,15 +19,19 @@ from .snap import snapshot, diff
 
 
 # ------------------------------------------------------------------ strategies
-APPEND_KINDS = ['rows', 'rows', 'otherdt', 'list', 'scalar', 'zero', 'layout', 'badshape', 'badrank', 'unconv', '0d']
-TRUNC_TOKENS = [0, 1, 2, -1, -2, 'half', '-len', 'len', 'len+3', 'len-1', 2.0, 'a', None]
+APPEND_KINDS = ['rows', 'rows', 'otherdt', 'list', 'scalar', 'zero', 'layout', 'badshape', 'badrank', 'unconv', '0d',
+                'manyrows', 'zero-badshape', 'zero-badrank', 'emptylist', 'npscalar', 'tuple']
+INVALID_KINDS = ('badshape', 'badrank', 'unconv', '0d', 'zero-badshape', 'zero-badrank', 'emptylist')
+TRUNC_TOKENS = [0, 1, 2, -1, -2, 'half', '-len', 'len', 'len+3', 'len-1', 2.0, 'a', None, 9, 'np:int8', 'np:uint8', 'np:int16', 'np:int64']
 
 
 @st.composite
 def st_append_arg(draw, valid_only=False):
-    kinds = [k for k in APPEND_KINDS if not (valid_only and k in ('badshape', 'badrank', 'unconv', '0d'))]
+    kinds = [k for k in APPEND_KINDS if not (valid_only and k in INVALID_KINDS)]
     k = draw(st.sampled_from(kinds))
     arg = {'k': k, 'n': draw(st.integers(1, 3)), 'seed': draw(st.integers(0, 2 ** 31))}
+    if k == 'manyrows':      # lengths that gain decimal digits, cross the 4096-byte stdio buffer and the 64 KB mark
+        arg['n'] = draw(st.sampled_from([7, 12, 40, 100, 600, 9000]))
     if k == 'otherdt':
         arg['dt'] = draw(gens.st_dt())
     if k == 'layout':
@@ -37,7 +41,7 @@ def st_append_arg(draw, valid_only=False):
 
 @st.composite
 def st_array_op(draw, shape_rank, extra=()):
-    o = draw(st.sampled_from(['append', 'append', 'iterappend', 'set', 'trunc', 'trunc', 'mode', 'reopen', 'ctx', 'copy', 'failappend'] + list(extra)))
+    o = draw(st.sampled_from(['append', 'append', 'iterappend', 'set', 'trunc', 'trunc', 'mode', 'reopen', 'ctx', 'copy', 'failappend', 'sibling'] + list(extra)))
     if o == 'append':
         return {'o': 'append', 'arg': draw(st_append_arg())}
     if o == 'iterappend':
@@ -61,6 +65,8 @@ def st_array_op(draw, shape_rank, extra=()):
         return {'o': 'overwrite', 'start': draw(st_start()), 'over': draw(st.sampled_from(['same', 'same', 'ragged']))}
     if o == 'copy':
         return {'o': 'copy', 'chunklen': draw(st.sampled_from([None, 1, 2, 3]))}
+    if o == 'sibling':
+        return {'o': 'sibling', 'start': draw(st_start()), 'via': draw(st.sampled_from(['create', 'create', 'open']))}
     if o == 'failappend':
         return {'o': 'failappend', 'chunks': [draw(st_append_arg(valid_only=True)) for _ in range(draw(st.integers(0, 3)))],
                 'kind': draw(st.sampled_from(['raise', 'badshape', 'unconv']))}
@@ -106,9 +112,20 @@ def build_append_operand(arg, m):
     n = arg['n']
     t = m.dtype.name
     seed = arg['seed']
-    if k in ('rows', 'layout'):
+    if k in ('rows', 'layout', 'manyrows'):
         x = gens.build_array(m.dtype, (n,) + tail, {'m': 'raw', 's': seed})
         return gens.apply_layout(x, arg.get('layout', 'C'))
+    if k == 'tuple':
+        x = gens.build_array(m.dtype, (n,) + tail, {'m': 'safe', 's': seed})
+        return gens.tolist_nested(np.ascontiguousarray(x).astype(m.dtype.newbyteorder('=')), as_tuple=True)
+    if k == 'npscalar':      # a NumPy scalar of the array's own type (no __len__)
+        return gens.build_array(m.dtype, (1,), {'m': 'raw', 's': seed})[0]
+    if k == 'zero-badshape':  # no rows, but an incompatible trailing shape
+        return np.zeros((0,) + tail[:-1] + ((tail[-1] + 1,) if tail else (2,)), dtype=m.dtype)
+    if k == 'zero-badrank':
+        return np.zeros((0,) + tail + (2,), dtype=m.dtype)
+    if k == 'emptylist':
+        return []
     if k == 'otherdt':
         odt = dt_of(arg['dt'])
         mode = gens.cast_mode(arg['dt']['t'], t)
@@ -146,6 +163,9 @@ def model_append(m, x):
 
 
 def trunc_index(tok, n):
+    if isinstance(tok, str) and tok.startswith('np:'):
+        t = np.dtype(tok[3:])
+        return t.type(min(n // 2, np.iinfo(t).max))
     if tok == 'half':
         return n // 2
     if tok == '-len':
@@ -252,6 +272,27 @@ class ArrayRun:
         self.m = None
         self.stepno = 0
         self.kinds = []
+        self.siblings = []      # other Arrays alive in the same process: (handle, path, reference ndarray)
+
+    def check_siblings(self):
+        import darr
+        for h, path, ref in self.siblings:
+            try:
+                arr, dj = rawdec.decode_array(path)
+                got = h[:]
+                fresh = darr.Array(path)
+                ok = arr.dtype.str == ref.dtype.str and arr.shape == ref.shape and arr.tobytes() == ref.tobytes() and \
+                    got.tobytes() == ref.tobytes() and tuple(h.shape) == ref.shape and np.dtype(h.dtype).str == ref.dtype.str and \
+                    tuple(fresh.shape) == ref.shape and np.dtype(fresh.dtype).str == ref.dtype.str
+            except Exception as e:
+                self.out.viol('sibling-array-changed', 'sibling-array', f'{type(e).__name__}: {e}')
+                return False
+            if not ok:
+                self.out.viol('sibling-array-changed', 'sibling-array', f'{path}: no longer equal to what was stored in it')
+                return False
+            if 'readme' in self.oracles:
+                check_array_readme(self.out, path, ref, False, 'sibling')
+        return not self.out.violations
 
     # -- creation
     def create(self, start, overwrite=False, over='same'):
@@ -389,7 +430,7 @@ class ArrayRun:
         empty = 'empty' if m.size == 0 else 'nonempty'
         if o == 'append':
             arg = op['arg']
-            if getattr(self, 'in_ctx', False) and arg['k'] == 'scalar' and m.ndim > 1:
+            if getattr(self, 'in_ctx', False) and arg['k'] in ('scalar', 'npscalar') and m.ndim > 1:
                 arg = dict(arg, k='rows')     # inside a context only valid appends are issued (a failed one closes the shared descriptor)
             x = build_append_operand(arg, m)
             tag = f"append:{arg['k']}:{empty}"
@@ -433,7 +474,7 @@ class ArrayRun:
                         return False
             return self.observe(tag)
         if o == 'iterappend':
-            chunks = [build_append_operand(c if not (c['k'] == 'scalar' and m.ndim > 1) else dict(c, k='rows'), m)
+            chunks = [build_append_operand(c if not (c['k'] in ('scalar', 'npscalar') and m.ndim > 1) else dict(c, k='rows'), m)
                       for c in op['chunks']]
             tag = f"iterappend:{len(chunks)}:{empty}"
             self.kinds.append('iterappend')
@@ -450,12 +491,29 @@ class ArrayRun:
                 return False
             self.m = newm
             return self.observe(tag)
+        if o == 'sibling':
+            # another Array (other dtype, rank, byte order) comes to life in the same process and stays alive
+            self.out.cls('sibling-object-alive')
+            st0 = op['start']
+            sdt, sshape = dt_of(st0['dt']), tuple(st0['shape'])
+            sref = gens.build_array(sdt, sshape, {'m': 'raw', 's': st0['seed']})
+            spath = os.path.join(self.d, f'sib{self.stepno}.darr')
+            try:
+                h = darr.asarray(spath, sref, accessmode='r+', chunklen=st0.get('chunklen', 2))
+                if op['via'] == 'open':
+                    h = darr.Array(spath)
+                h.readcodelanguages
+            except Exception as e:
+                self.out.viol('valid-call-raised', f'sibling:{type(e).__name__}', f'step {self.stepno}: {type(e).__name__}: {e}')
+                return False
+            self.siblings.append((h, spath, sref))
+            return self.observe('after-sibling')
         if o == 'failappend':
             # an iterappend that fails after len(chunks) good chunks: it must raise and exactly the good chunks are kept (C09);
             # the history then goes on through the same handle
             if self.mode == 'r' or getattr(self, 'in_ctx', False):
                 return True
-            chunks = [build_append_operand(c if not (c['k'] == 'scalar' and m.ndim > 1) else dict(c, k='rows'), m)
+            chunks = [build_append_operand(c if not (c['k'] in ('scalar', 'npscalar') and m.ndim > 1) else dict(c, k='rows'), m)
                       for c in op['chunks']]
             fk = op['kind']
             tag = f"failappend:{fk}:{len(chunks)}:{empty}"
@@ -530,6 +588,20 @@ class ArrayRun:
                     return True   # read-only empty arrays: C11's business
                 self.out.cls('ro-mutator')
                 return self.expect_reject(tag + ':ro', lambda: darr.truncate_array(target, idx))
+            if isinstance(idx, np.integer):
+                # NumPy integers: refusing them (state unchanged) and treating them like the equal Python int are both legitimate
+                self.out.cls('trunc-npint')
+                try:
+                    darr.truncate_array(target, idx)
+                except Exception:
+                    return self.observe(tag + ':rejected')
+                if not model_trunc_ok(int(idx), m):
+                    self.out.viol('no-raise', tag, f'step {self.stepno}: truncation to {idx!r} of length {len(m)} did not raise')
+                    return False
+                self.m = m[:int(idx)].copy()
+                if by != 'obj':
+                    self.a = darr.Array(self.path, accessmode=self.mode)
+                return self.observe(tag)
             if not ok:
                 self.out.cls('rejected-call')
                 return self.expect_reject(tag, lambda: darr.truncate_array(target, idx))
@@ -687,6 +759,9 @@ def run_array_history(ctx, spec, oracles):
             prev = op['o']
         run.skip_live = False
         if ok and lazy:
-            run.observe('final:live')
+            ok = run.observe('final:live')
+        if ok and run.siblings:
+            run.check_siblings()
+        run.siblings = []
         run.a = None
     return out, run
